@@ -260,7 +260,37 @@ def run_cross_history(ctx, p):
     ctx.nontrivial('cross_history', how, cr, [float('%.9g' % t) for t in np.r_[v1, v2, o]])
 
 
-RUNNERS = {'cross_history': run_cross_history, 'arith': run_arith, 'guard': run_guard, 'cross': run_cross, 'inertia': run_inertia, 'transform': run_transform}
+def run_cross_multi(ctx, p):
+    """cross products on objects holding several values: 1 x M, M x 1 and M x M combine value by value (the lone value is reused);
+    the right operand may be any motion vector (velocity or acceleration) or any force vector"""
+    sm = S()
+    cl, cr = p['left'], p['right']
+    vs, os_ = [np.asarray(a, float) for a in p['vs']], [np.asarray(a, float) for a in p['os']]
+    m, n = len(vs), len(os_)
+    sig = dict(api='cross', left=cl, right=cr, via=p['via'], lens='%sx%s' % ('1' if m == 1 else 'M', '1' if n == 1 else 'M'))
+    try:
+        x, y = mk(cl, vs), mk(cr, os_)
+        r = (x @ y) if p['via'] == 'matmul' else x.cross(y)
+    except Exception as e:
+        ctx.bad('cross', dict(sig, kind='raised', exc=type(e).__name__, where=_where(e)), '%s(%d values) x %s(%d values) raised %r' % (cl, m, cr, n, e))
+        return
+    k = max(m, n)
+    wcls = 'SpatialAcceleration' if cr in MOTION else 'SpatialForce'
+    ok = type(r).__name__ == wcls and len(r.data) == k
+    worst = 0.0
+    if ok:
+        for i in range(k):
+            v, o = vs[i if m > 1 else 0], os_[i if n > 1 else 0]
+            M = ref.crm(v) if cr in MOTION else ref.crf(v)
+            want = ref.f64(ref.mm(M, o.reshape(6, 1))).reshape(-1)
+            worst = max(worst, rel(r.data[i], want, float(np.linalg.norm(v) * np.linalg.norm(o))))
+    ctx.judge('cross', ok and worst <= TOL, dict(sig, kind='value_or_class_wrong', got=type(r).__name__),
+              lambda: '%s(%d values) x %s(%d values) gives %s of length %d, worst relative error %.3g' % (cl, m, cr, n, type(r).__name__, len(getattr(r, 'data', [])), worst))
+    ctx.cell('cross_multi', cl, cr, p['via'], sig['lens'])
+    ctx.nontrivial('cross_multi', cl, cr, m, n, [float('%.9g' % t) for t in np.r_[vs[0], os_[0]]])
+
+
+RUNNERS = {'cross_multi': run_cross_multi, 'cross_history': run_cross_history, 'arith': run_arith, 'guard': run_guard, 'cross': run_cross, 'inertia': run_inertia, 'transform': run_transform}
 
 
 def REACH():
@@ -302,6 +332,11 @@ def run(ctx):
         drive(RUNNERS, ctx, 'cross', p)
         if ctx.ncases % 999 == 1:
             ctx.sample(dict(case='cross', **p), limit=4)
+    for _ in range(ctx.scale(600, 10000)):
+        right = SV[rng.integers(4)]                  # velocity, acceleration, force, momentum
+        m, n = [(1, 1), (1, 3), (3, 1), (2, 2), (4, 4)][rng.integers(5)]
+        via = 'matmul' if rng.random() < 0.4 else 'cross'
+        drive(RUNNERS, ctx, 'cross_multi', dict(left='SpatialVelocity', right=right, via=via, vs=[vec6(rng) for _ in range(m)], os=[vec6(rng) for _ in range(n)]))
     for _ in range(ctx.scale(400, 6000)):
         drive(RUNNERS, ctx, 'cross_history', dict(v1=vec6(rng), v2=vec6(rng), o=vec6(rng), how=['setitem', 'pop_append', 'insert_pop', 'write'][rng.integers(4)],
                                                   right=['SpatialVelocity', 'SpatialForce', 'SpatialMomentum'][rng.integers(3)]))
